@@ -56,11 +56,11 @@ FrameTarget(bitrate, q, count) == (bitrate * q) \div (400 * count) + 1
 
 -----------------------------------------------------------------------------
 Init == /\ l = 1 /\ cf = [ms |-> 0, fs |-> 48000, ch |-> 1, S |-> 1]
-        /\ es = [br |-> OPUS_AUTO, vbr |-> 1, cvbr |-> 1]
+        /\ es = [br |-> OPUS_AUTO, vbr |-> 1, cvbr |-> 1, dtx |-> 0]
         /\ seen = {} /\ trC = TrNew /\ trS = TrNew /\ prv = [res |-> 0, celt |-> FALSE, mx |-> 0]
 
 TNew == /\ l <= Len(Tr) /\ Tr[l].k = "new"
-        /\ cf' = Tr[l] /\ es' = [br |-> OPUS_AUTO, vbr |-> 1, cvbr |-> 1]
+        /\ cf' = Tr[l] /\ es' = [br |-> OPUS_AUTO, vbr |-> 1, cvbr |-> 1, dtx |-> 0]
         /\ seen' = {} /\ trC' = TrNew /\ trS' = TrNew /\ prv' = [res |-> 0, celt |-> FALSE, mx |-> 0]
         /\ l' = l + 1
 
@@ -77,6 +77,7 @@ TSet ==
                    THEN [es EXCEPT !.br = IF cf.ms = 1 THEN MsClamp(e.v, cf.ch) ELSE ClampBitrate(e.v, cf.ch)]
               ELSE IF e.rq = SET_VBR THEN [es EXCEPT !.vbr = e.v]
               ELSE IF e.rq = SET_VBR_CONSTRAINT THEN [es EXCEPT !.cvbr = e.v]
+              ELSE IF e.rq = SET_DTX THEN [es EXCEPT !.dtx = e.v]
               ELSE es
      /\ prv' = IF e.rq = RESET_STATE THEN [prv EXCEPT !.res = 0, !.celt = FALSE] ELSE prv
   /\ seen' = {} /\ trC' = TrNew /\ trS' = TrNew
@@ -90,8 +91,8 @@ DurOK(r, q) == r.count * Dur48(r.toc) = 120 * q
 MdctOnly(r) == TocMode(r.toc) = MODE_CELT
 HeaderLogged(r, h) == r.off <= Len(h)
 
-\* single stream: "DTX packet" = every frame at most one byte and the packet at most two
-IsDtx1(r, n) == n <= 2 /\ FramesTiny(r)
+\* single stream: "DTX packet" = DTX is enabled, every frame at most one byte and the packet at most two
+IsDtx1(r, n) == es.dtx = 1 /\ n <= 2 /\ FramesTiny(r)
 
 \* multistream: the S sub-packets, re-derived from the bytes (off is only a hint)
 RECURSIVE SubsOK(_, _, _, _)
@@ -106,7 +107,7 @@ SubParse(e, i, S) == Parse(Pk(e.hs[i], e.r - e.off[i]), i < S)
 MsValid(e, S, q) == Len(e.off) = S /\ Len(e.hs) = S /\ e.off[1] = 0 /\ SubsOK(e, 1, S, q)
 MsPayload(e, S) == SumSeq([i \in 1..S |-> SumSeq(SubParse(e, i, S).sizes)])
 \* every sub-packet a DTX packet (the self-delimiting form adds one length byte)
-MsIsDtx(e, S) == \A i \in 1..S : LET r == SubParse(e, i, S) IN
+MsIsDtx(e, S) == es.dtx = 1 /\ \A i \in 1..S : LET r == SubParse(e, i, S) IN
                    FramesTiny(r) /\ (IF i < S THEN r.consumed <= 3 ELSE e.r - e.off[i] <= 2)
 
 \* the sizes already seen under the present settings for this duration and buffer: one and the same
@@ -157,6 +158,7 @@ Enc1 ==
             /\ (prv.celt /\ r.count = 1 /\ pay >= 2 /\ e.md = MODE_CELT /\ e.q <= 8 /\ es.br <= 260000) =>   \* (the MDCT layer caps its rate at 260 kb/s per channel)
                  LET rate == (es.br * e.q * 120 + 3000) \div 6000 IN
                  e.res = 0 \/ e.res = prv.res + 64 * pay - rate
+  /\ Strict => (e.gv = es.vbr /\ e.gc = es.cvbr)               \* the getters agree with the settings tracked here
   /\ seen' = IF e.r > 0 /\ r.ok /\ es.vbr = 0 /\ es.br = OPUS_AUTO /\ ~IsDtx1(r, e.r) THEN seen \cup {<<e.q, e.mb, e.r>>} ELSE seen
   /\ trC' = c2 /\ trS' = s2
   /\ prv' = [res |-> e.res, celt |-> e.r > 0 /\ e.md = MODE_CELT /\ r.ok /\ MdctOnly(r) /\ r.count = 1 /\ SumSeq(r.sizes) >= 2,
@@ -186,6 +188,7 @@ EncM ==
             /\ explicit => \E x \in MsCbrSizesQ(es.br, e.q, e.mb, S) : Abs(e.r - x) <= 1
             /\ es.br = OPUS_BITRATE_MAX => (e.r = e.mb \/ e.r >= 1276 * S)
        /\ inS => TrExcess(s2) <= 2 * (s2.mx + 16)
+  /\ Strict => (e.gv = es.vbr /\ e.gc = es.cvbr)
   /\ seen' = IF ok /\ es.vbr = 0 /\ es.br # OPUS_BITRATE_MAX /\ ~dtx THEN seen \cup {<<e.q, e.mb, e.r>>} ELSE seen
   /\ trS' = s2 /\ UNCHANGED <<trC, prv>>
 
